@@ -655,11 +655,15 @@ class Metrics:
         None
 
         """
-        file_trace, mem_trace, _ = cls.traces[rank][type_]
+        file_trace, mem_trace, is_started = cls.traces[rank][type_]
         assert file_trace is not None
 
+        # A trace that was never started has not emptied its file yet: do not
+        # append to whatever an earlier session left there
+        mode = "a" if is_started else "w"
+
         trace_strs = [",".join(str(val) for val in line) + "\n" for line in file_trace]
-        with open(cls.prefix + "-" + rank + "-" + type_ + ".csv", "a") as f:
+        with open(cls.prefix + "-" + rank + "-" + type_ + ".csv", mode) as f:
             f.write("".join(trace_strs))
 
         cls.traces[rank][type_] = ([], mem_trace, True)
